@@ -599,7 +599,7 @@ func (cch *cache) InsertContainer(ctr *nri.Container, opts ...InsertContainerOpt
 
 	c, err := cch.createContainer(ctr, opts...)
 	if err != nil {
-		return nil, cacheError("failed to insert container %s: %v", c.GetID(), err)
+		return nil, cacheError("failed to insert container %s: %v", ctr.GetId(), err)
 	}
 
 	cch.Containers[c.GetID()] = c
